@@ -138,7 +138,7 @@ def extract_cases(tlc_out, dest, fam, start_id, extra_fields=None):
             if not m:
                 continue
             c = json.loads(json.loads(m.group(1))[5:])
-            if "bytes" in c or "toks" in c or c.get("mode") == "date":
+            if "bytes" in c or "toks" in c or c.get("mode") in ("date", "num"):
                 rec = dict(c, id=start_id + n, fam=fam)
             else:
                 rec = {"id": start_id + n, "fam": fam, "ast": c["ast"], "inp": c["inp"], "binds": fix_binds(c.get("binds", [])), "exp": c.get("exp")}
@@ -177,7 +177,7 @@ def _validate_one(specdir, trace, idx, workers, timeout, module):
                 verdicts[int(m.group(1))] = m.group(2)
     return verdicts, gen, dist
 
-def validate(specdir, trace, workers=16, timeout=3600, module="TraceEval", shard_lines=12000, max_par=8):
+def validate(specdir, trace, workers=16, timeout=3600, module="TraceEval", shard_lines=12000, max_par=8, by_ev=None):
     """Trace validation: TLC evaluates every recorded line against the specification.
     The trace is cut into shards validated by parallel TLC processes (the lines are independent
     one-step behaviours).  Returns (verdicts: id -> verdict for lines that are not plain "ok",
@@ -187,6 +187,26 @@ def validate(specdir, trace, workers=16, timeout=3600, module="TraceEval", shard
         lines = f.readlines()
     if not lines:
         return {}, 0, 0
+    if by_ev:
+        # events of different kinds are validated by different trace modules
+        groups = {}
+        for ln in lines:
+            m = module
+            for evname, mod in by_ev.items():
+                if '"ev": "%s"' % evname in ln or '"ev":"%s"' % evname in ln:
+                    m = mod
+            groups.setdefault(m, []).append(ln)
+        verdicts, gen, dist = {}, 0, 0
+        for m, ls in groups.items():
+            p = "%s.%s" % (trace, m)
+            with open(p, "w") as f:
+                f.writelines(ls)
+            v, g, d = validate(specdir, p, workers, timeout, m, shard_lines, max_par)
+            os.remove(p)
+            verdicts.update(v)
+            gen += g
+            dist += d
+        return verdicts, gen, dist
     nsh = max(1, min(64, (len(lines) + shard_lines - 1) // shard_lines))
     per = (len(lines) + nsh - 1) // nsh
     shards = []
